@@ -403,6 +403,7 @@ std::optional<std::pair<std::string, std::uint16_t>> parse_endpoint(const std::s
 }  // namespace
 
 std::vector<Node::ControlEndpoint> Node::preferred_control_endpoints() const {
+    SchedulerLock lock(scheduler_mutex_);
     std::vector<ControlEndpoint> endpoints;
     endpoints.reserve(config_.advertised_endpoints.size() + config_.auto_advertise_candidates.size() + 2);
     std::unordered_set<std::string> seen;
@@ -2117,10 +2118,17 @@ void Node::tick() {
 void Node::start_transport(std::uint16_t port) {
     initialize_transport_handler();
     sessions_.start(port);
-    nat_status_ = nat_manager_.coordinate("0.0.0.0", sessions_.listening_port());
+    auto nat_status = nat_manager_.coordinate("0.0.0.0", sessions_.listening_port());
+    {
+        // Session threads are already running and read these through self_endpoint() /
+        // preferred_control_endpoints(): publish them under the lock those readers take.
+        SchedulerLock lock(scheduler_mutex_);
+        nat_status_ = std::move(nat_status);
+    }
     if (relay_client_) {
         relay_client_->start();
     }
+    SchedulerLock lock(scheduler_mutex_);
     refresh_advertised_endpoints();
 }
 
@@ -2713,6 +2721,7 @@ bool Node::deliver_manifest(const protocol::Manifest& manifest,
 }
 
 std::string Node::self_endpoint() const {
+    SchedulerLock lock(scheduler_mutex_);
     const auto port = sessions_.listening_port();
     if (port == 0) {
         return {};
